@@ -4,7 +4,11 @@ package persistence
 // queued write has been taken from writeCh before the next command - the contract C14 checks on the real
 // goroutine). Used by the engine-level harnesses so that journal contents are deterministic.
 
-import "os"
+import (
+	"os"
+
+	rt "github.com/sanonone/kektordb/pkg/zzverifrt"
+)
 
 type zzLazyState struct {
 	buf    []string
@@ -17,6 +21,9 @@ var zzLazy = map[*LazyAOFWriter]*zzLazyState{}
 
 // ZZJournal records every payload accepted by Write, in order (ghost trace for harnesses).
 var ZZJournal []string
+
+// ghost event order (see zzverifrt.Tick)
+var ZZLastWriteSeq, ZZBeginSeq int
 
 func ZZNewLazy(underlying *AOFWriter) *LazyAOFWriter {
 	lw := &LazyAOFWriter{underlying: underlying}
@@ -41,11 +48,13 @@ func ZZLazyWrite(lw *LazyAOFWriter, data string) error {
 		return zzErrClosed
 	}
 	ZZJournal = append(ZZJournal, data)
+	ZZLastWriteSeq = rt.Tick()
 	if st.inSnap {
 		st.snap = append(st.snap, data)
-		return nil
+	} else {
+		st.buf = append(st.buf, data)
 	}
-	st.buf = append(st.buf, data)
+	rt.Yield() // the journal/apply gap: the caller has journaled but not yet applied
 	return nil
 }
 
@@ -103,6 +112,7 @@ func ZZLazyClose(lw *LazyAOFWriter) error {
 }
 
 func ZZLazyTruncate(lw *LazyAOFWriter) error {
+	rt.Yield()
 	st := zzState(lw)
 	if st.closed {
 		return zzErrClosed
@@ -114,6 +124,7 @@ func ZZLazyTruncate(lw *LazyAOFWriter) error {
 }
 
 func ZZLazyReplaceWith(lw *LazyAOFWriter, path string) error {
+	rt.Yield()
 	st := zzState(lw)
 	if st.closed {
 		return zzErrClosed
@@ -125,6 +136,7 @@ func ZZLazyReplaceWith(lw *LazyAOFWriter, path string) error {
 }
 
 func ZZLazyBegin(lw *LazyAOFWriter) error {
+	rt.Yield()
 	st := zzState(lw)
 	if st.closed {
 		return zzErrClosed
@@ -137,10 +149,12 @@ func ZZLazyBegin(lw *LazyAOFWriter) error {
 	}
 	st.snap = nil
 	st.inSnap = true
+	ZZBeginSeq = rt.Tick()
 	return nil
 }
 
 func ZZLazyEnd(lw *LazyAOFWriter) ([]string, error) {
+	rt.Yield()
 	st := zzState(lw)
 	if st.closed {
 		return nil, zzErrClosed
